@@ -566,11 +566,13 @@ def gen_kernel_history(r):
 
 
 CORPUS = [
-    # F35: a boolean read back with its own type tag (was occaUndefined before the fix)
+    # C29-F1: a boolean read back with its own type tag (was occaUndefined before the fix)
     ["rt bool:1 4", "rt true 4", "rt false 4"],
     ["jnew 1", "push 1 true", "aget 2 1 0", "gn 2 4", "gb 2", "free 1"],
-    # F36: a null document: nothing to free, nothing may leak
+    # C29-F2: a null document: nothing to free, nothing may leak
     ["parse 1 6e756c6c", "mk null"],
+    # C29-F3: strings returned by the API are C strings
+    ["khash"],
     # every constructor at its extremes through json with its own type
     ["rt int64:8000000000000000 11", "rt uint64:ffffffffffffffff 12", "rt int8:80 5", "rt uchar:ff 6", "rt char:80 5",
      "rt float:7f800001 13", "rt double:7ff0000000000001 14", "rt double:8000000000000000 14", "rt long:7fffffffffffffff 11"],
@@ -588,7 +590,7 @@ CORPUS = [
 ]
 
 KNOWN_REPLAYS = [
-    # F37 (known): an element handle dangles after the array it points into grows
+    # C29-K1 (known): an element handle dangles after the array it points into grows
     ["jnew 1", "push 1 int32:1", "aget 2 1 0"] + ["push 1 int32:%d" % i for i in range(2, 20)] + ["gn 2 9", "free 1"],
 ]
 
@@ -635,8 +637,19 @@ def main(argv):
     ck.cov["counters"]["json_histories_outside_protocol_dropped"] = outside
     if outside > n_json // 5:
         ck.problems.append(("tie", "generator and model disagree on the handle protocol for %d of %d histories" % (outside, n_json)))
-    hs = CORPUS + KNOWN_REPLAYS + cand + [gen_pure_history(ck.rng) for _ in range(n_pure)] + [gen_kernel_history(ck.rng) for _ in range(n_kern)]
-    ck.correspond(hb, db, hs, label="capi", timeout=900, ubsan_is_violation=r"src/c/|internal/c/types|include/occa/c/")
+    ub = r"src/c/|internal/c/types|include/occa/c/"
+    # recorded replays: LeakSanitizer is asked after every history (exact attribution)
+    ck.correspond(hb, db, CORPUS + KNOWN_REPLAYS, label="corpus", timeout=900, ubsan_is_violation=ub, env={"H_CAPI_LEAK_EVERY": "1"})
+    # generated histories: the leak check runs every 64 histories (it is slow); if it fires the batch is run again
+    # with the check after every history so that the leaking history is identified and shrunk
+    hs = cand + [gen_pure_history(ck.rng) for _ in range(n_pure)] + [gen_kernel_history(ck.rng) for _ in range(n_kern)]
+    nv = len(ck.violations)
+    ck.correspond(hb, db, hs, label="capi", timeout=1800, ubsan_is_violation=ub, env={"H_CAPI_LEAK_EVERY": "64"})
+    if any("LeakSanitizer" in v["what"] or v["what"].endswith("impl= model=") for v in ck.violations[nv:]):
+        del ck.violations[nv:]
+        ck.notes.append("leak reported in batched mode: generated histories re-run with a leak check after every history")
+        ck.correspond(hb, db, hs, label="capi-leakcheck", timeout=3600, ubsan_is_violation=ub, env={"H_CAPI_LEAK_EVERY": "1"})
+    hs = CORPUS + KNOWN_REPLAYS + hs
     ops = [l.split()[0] for h in hs for l in h]
     for name in sorted(set(ops)):
         ck.cov["counters"]["op_" + name] = ops.count(name)
